@@ -62,6 +62,8 @@ pub fn parse(e: &Value) -> MQ {
     }
 }
 
+enum Step { One(MQ), Tx(Vec<MQ>, Option<usize>) }
+
 pub fn run(args: &Args) {
     let input = args.str("in", "");
     let work = args.str("work", "/verif/harness/target/scratch/vdb_mbt");
@@ -69,6 +71,8 @@ pub fn run(args: &Args) {
     let first = args.num("first", 0);
     let reopen_every = args.num("reopen-every", 5);
     let searches = args.num("searches", 0) == 1;
+    let tx = args.num("tx", 0) == 1;
+    let (mut n_tx, mut n_tx_rb) = (0u64, 0u64);
     let (mut n_search, mut n_search_nt) = (0u64, 0u64);
     let kinds: Vec<Kind> = args.str("variants", "memory").split(',').map(|n| Kind::all().into_iter().find(|k| k.name() == n).expect("variant")).collect();
     std::fs::create_dir_all(&work).unwrap();
@@ -82,6 +86,24 @@ pub fn run(args: &Args) {
         if line.trim().is_empty() { continue; }
         let run = first + i as u64;
         let events: Vec<Value> = serde_json::from_str(line).expect("history");
+        let qs: Vec<MQ> = events.iter().map(parse).collect();
+        // the plans derived from one TLC history: as printed; and (--tx 1) with its last query / last two queries inside
+        // a transaction that the closure aborts, and the last two inside a transaction that commits
+        let n = qs.len();
+        let mut plans: Vec<(&str, Vec<Step>)> = vec![("plain", qs.iter().map(|q| Step::One(q.clone())).collect())];
+        if tx && n >= 1 {
+            let mut p: Vec<Step> = qs[..n - 1].iter().map(|q| Step::One(q.clone())).collect();
+            p.push(Step::Tx(vec![qs[n - 1].clone()], Some(1)));
+            plans.push(("tx1-abort", p));
+        }
+        if tx && n >= 2 {
+            for (name, abort) in [("tx2-abort", Some(2)), ("tx2-commit", None)] {
+                let mut p: Vec<Step> = qs[..n - 2].iter().map(|q| Step::One(q.clone())).collect();
+                p.push(Step::Tx(vec![qs[n - 2].clone(), qs[n - 1].clone()], abort));
+                plans.push((name, p));
+            }
+        }
+      for (plan_name, plan) in plans {
         let mut dbs: Vec<(Kind, DbX, String)> = vec![];
         for k in &kinds {
             let path = format!("{work}/mbt_{run}_{}.agdb", k.name());
@@ -89,27 +111,50 @@ pub fn run(args: &Args) {
             dbs.push((*k, open(*k, &path).expect("open"), path));
         }
         n_hist += 1;
-        wd.kick(&format!("history {run}"));
-        trace.emit(json!({"ev": "Reset", "profile": "mbt", "run": run, "variants": kinds.iter().map(|k| k.name()).collect::<Vec<_>>()}));
+        wd.kick(&format!("history {run} {plan_name}"));
+        trace.emit(json!({"ev": "Reset", "profile": "mbt", "run": run, "plan": plan_name, "variants": kinds.iter().map(|k| k.name()).collect::<Vec<_>>()}));
         let mut dead = false;
-        for e in &events {
-            let q = parse(e);
-            let mut outs: Vec<Value> = vec![];
-            for (_, db, _) in dbs.iter_mut() {
-                match guarded(|| exec_mq(db, &q)) {
-                    Ok(r) => outs.push(q.outcome(&r)),
-                    Err(p) => { trace.emit(json!({"ev": "Panic", "query": q.event(), "msg": p})); dead = true; break; }
+        for step in &plan {
+            match step {
+                Step::One(q) => {
+                    let mut outs: Vec<Value> = vec![];
+                    for (_, db, _) in dbs.iter_mut() {
+                        match guarded(|| exec_mq(db, q)) {
+                            Ok(r) => outs.push(q.outcome(&r)),
+                            Err(p) => { trace.emit(json!({"ev": "Panic", "query": q.event(), "msg": p})); dead = true; break; }
+                        }
+                    }
+                    if dead { break; }
+                    let firsto = outs.remove(0);
+                    n_steps += 1;
+                    if firsto["ok"] == true { n_ok += 1; } else { n_fail += 1; }
+                    let others: Vec<Value> = outs.iter().map(|o| json!({"ok": o["ok"], "res": o["res"]})).collect();
+                    let ev = merge(merge(q.event(), firsto), json!({"others": others}));
+                    distinct.insert(vcore::fnv(serde_json::to_string(&ev).unwrap().as_bytes()));
+                    trace.emit(ev);
+                }
+                Step::Tx(tqs, abort) => {
+                    let mut outs: Vec<(Vec<Result<QueryResult, DbError>>, bool)> = vec![];
+                    for (_, db, _) in dbs.iter_mut() {
+                        match guarded(|| exec_tx(db, tqs, *abort)) {
+                            Ok(o) => outs.push(o),
+                            Err(p) => { trace.emit(json!({"ev": "Panic", "query": "tx", "msg": p})); dead = true; break; }
+                        }
+                    }
+                    if dead { break; }
+                    let enc = |o: &(Vec<Result<QueryResult, DbError>>, bool)| -> (Vec<Value>, bool) {
+                        (o.0.iter().enumerate().map(|(i, r)| merge(tqs[i].event(), tqs[i].outcome(r))).collect(), o.1)
+                    };
+                    let (subs, committed) = enc(&outs[0]);
+                    let others: Vec<Value> = outs[1..].iter().map(|o| { let (s, c) = enc(o); json!({"ok": c, "res": s}) }).collect();
+                    n_tx += 1;
+                    if !committed { n_tx_rb += 1; }
+                    n_steps += subs.len() as u64;
+                    trace.emit(json!({"ev": "Tx", "queries": subs.clone(), "ok": committed, "res": subs, "abort": abort.unwrap_or(0), "others": others}));
                 }
             }
-            if dead { aborted += 1; break; }
-            let firsto = outs.remove(0);
-            n_steps += 1;
-            if firsto["ok"] == true { n_ok += 1; } else { n_fail += 1; }
-            let others: Vec<Value> = outs.iter().map(|o| json!({"ok": o["ok"], "res": o["res"]})).collect();
-            let ev = merge(merge(q.event(), firsto), json!({"others": others}));
-            distinct.insert(vcore::fnv(serde_json::to_string(&ev).unwrap().as_bytes()));
-            trace.emit(ev);
         }
+        if dead { aborted += 1; }
         if !dead {
             if reopen_every > 0 && run % reopen_every == 0 {
                 // close and reopen the file-backed variants: the state reached must be the state persisted
@@ -172,10 +217,11 @@ pub fn run(args: &Args) {
             if k.file_backed() { remove_files(&path); } else { let _ = std::fs::remove_file(&path); }
         }
         for k in &kinds { remove_files(&format!("{work}/mbt_{run}_{}.agdb", k.name())); }
+      }
     }
     trace.flush();
     println!("{}", serde_json::to_string(&json!({
         "histories": n_hist, "steps": n_steps, "steps_ok": n_ok, "steps_failed": n_fail, "reopened": n_reopen,
-        "aborted_runs": aborted, "searches": n_search, "searches_nontrivial": n_search_nt, "distinct_step_events": distinct.len(), "trace_events": trace.events, "variants": kinds.len(),
+        "aborted_runs": aborted, "transactions": n_tx, "transactions_rolled_back": n_tx_rb, "searches": n_search, "searches_nontrivial": n_search_nt, "distinct_step_events": distinct.len(), "trace_events": trace.events, "variants": kinds.len(),
     })).unwrap());
 }
